@@ -1,7 +1,12 @@
 """C08 — lookup by flight identifier returns exactly the matching trajectory.
 
 R1  stale-flag discipline (T-ORDER): every normal path through `add` to a
-    return passes the point where `index_stale = True` is set, or a branch that
+    return passes a point where the flag is marked - a store into
+    `index_stale` of a value that is true whenever the store is identified:
+    the constant, `self.indexable` itself, or the local that was just stored
+    into `self.indexable` (must-analysis of the locals equal to it); a store
+    of anything else clears the mark, except a failed addition putting back,
+    in an exception handler, the value the flag had on entry -, or a branch that
     established that the store is not identified and nothing else (forward
     may-analysis on the CFG: `if self.indexable: mark`, a guard clause
     `if not self.indexable: return`, ...), and the mark follows the write; in
@@ -29,12 +34,18 @@ R2  sorted-writer <-> bisect-reader agreement, decided on values, not on
     and arrays created with the identifiers' own type pass.  The index
     variable itself is created with that type (every
     createVariable('flight_id', T, ...), also looped over a literal table
-    of names).  Only when the interpretation
+    of names).  A `_reindex` that the interpretation does not decide with
+    the helpers of the module taken as opaque is interpreted once more
+    with those helpers entered (`reindex_table_through_helpers`: the steps
+    - reading the identifiers off the files, pairing, sorting, writing -
+    may live in methods / module functions of their own).  Only when the
+    interpretation
     cannot evaluate the writer: a construct on the way of the stored
     identifiers that does not hold 64-bit integers (the same list, decided on
     the spelling) is a violation whatever the form of the sort, and what is stored is traced
     back (single-definition locals, tuple unpacking, conversions, calls of
-    resolved repository functions with their arguments bound) to two columns
+    resolved repository functions with their arguments bound - also for
+    "built from nothing but" and for the representation on the way) to two columns
     of ONE ascending sort of (position, identifier) pairs — tuples or
     NamedTuple/dataclass records from enumerate / zip / map / a generator;
     `sorted(...)`, an in-place `.sort()`, `zip(*pairs)`, or the
@@ -51,7 +62,21 @@ R2  sorted-writer <-> bisect-reader agreement, decided on values, not on
     variable of the same snapshot, on a path where the facts `pos in range`
     and `A[pos] == identifier` hold (branch conditions by forward dataflow on
     the CFG; any spelling of the tests, guard clauses or conditional
-    expressions).  A store without files answers from its cache: the element
+    expressions).  All of this is decided path by path: every feasible
+    path carries which assignment of each local it went through, so a
+    local bound on several branches - the position-or-None (or -1, or
+    (found, position)) result of a search helper, a `result` variable -
+    is read as what that path gave it; constants and the domain of the
+    defining expression (an element of trajectory_index, a search result
+    and a length are positions >= 0, elements of the index variables are
+    never None) decide the tests a path takes on such a local (`is None`,
+    `< 0`, truth of a flag; a conditional expression forks the path, also
+    when it stands inside the test), and contradictory paths drop out.
+    A confirmed hit must be answered: a path on which bounds and equality
+    hold and that returns None, told from an answering path only by a test
+    of the position that some position satisfies (`if not pos: return
+    None` loses position 0), is a violation.
+    A store without files answers from its cache: the element
     of `self._trajectories` selected by equality of its flight_id with the
     request (loop with early return, next(generator, None), filter, list
     comprehension, dict comprehension + get), None when there is none; the
@@ -127,8 +152,47 @@ def rule_stale(ctx, m):
     g = CFG(add.node)
     sets = [n for n in g.nodes if n.kind == 'stmt' and isinstance(n.stmt, ast.Assign)
             and norm(n.stmt.targets[0]) == 'self.index_stale']
-    true_sets = [n for n in sets if isinstance(n.stmt.value, ast.Constant) and n.stmt.value.value is True]
-    ctx.floor('C08-R1', len(true_sets), 1, '`index_stale = True` in add')
+    # a mark is a store into the flag of a value that is true whenever the store is identified: the constant, or the
+    # identifier use of the store itself - `self.indexable`, or the local that was just stored into it (must-analysis:
+    # the locals known to equal self.indexable at each point)
+    _IDENT = ('self.indexable', 'bool(self.indexable)', 'self.indexable is True', 'self.indexable == True')
+
+    def _eq_tr(node, st):
+        s_ = node.stmt
+        if node.kind != 'stmt' or s_ is None:
+            return st
+        if isinstance(s_, ast.Assign) and len(s_.targets) == 1:
+            t_, v_ = s_.targets[0], s_.value
+            if norm(t_) == 'self.indexable':
+                return frozenset({v_.id}) if isinstance(v_, ast.Name) else frozenset()
+            if isinstance(t_, ast.Name) and norm(v_) == 'self.indexable':
+                return st | {t_.id}
+        killed = {norm(t) for t, _, _ in stores_to(s_)} if isinstance(s_, (ast.Assign, ast.AugAssign, ast.AnnAssign, ast.Delete,
+                                                                             ast.For, ast.With)) else set()
+        if 'self.indexable' in killed:
+            return frozenset()
+        return frozenset(x for x in st if x not in killed)
+    eq_ins, _ = g.forward(frozenset(), _eq_tr, lambda a, b: a & b, edge_ok=_normal)
+
+    def _is_mark(n) -> bool:
+        v_ = n.stmt.value
+        if isinstance(v_, ast.Constant):
+            return v_.value is True
+        if isinstance(v_, ast.Call) and call_name(v_) == 'bool' and len(v_.args) == 1 and not v_.keywords:
+            v_ = v_.args[0]
+        return norm(v_) in _IDENT or (isinstance(v_, ast.Name) and v_.id in eq_ins.get(n.id, ()))
+
+    def _is_restore(n) -> bool:
+        """a failed addition puts the flag back: the store sits in an exception handler (not on a normal path) and
+        stores what the flag was on entry"""
+        v_ = n.stmt.value
+        if n.id in eq_ins or not isinstance(v_, ast.Name):
+            return False
+        d = single_def_value(add.node, v_.id)
+        return d is not None and norm(d) == 'self.index_stale'
+    true_sets = [n for n in sets if _is_mark(n)]
+    sets = [n for n in sets if n in true_sets or not _is_restore(n)]
+    ctx.floor('C08-R1', len(true_sets), 1, 'store of a mark (`index_stale = True`) in add')
     # every normal path to a return passes the mark, or a branch that established "the store is not identified" and
     # nothing else (forward may-analysis: U = not marked yet, M = marked, E = exempt); any spelling of the branch:
     # `if self.indexable: mark`, a guard clause `if not self.indexable: return`, …
@@ -432,9 +496,29 @@ def _index_variable(fi, e: ast.expr):
     return None
 
 
-def variable_reads(r: Ref, seen: set | None = None) -> set[tuple[str, bool]]:
+def _callee_results(prog, r: Ref, c: ast.Call):
+    """[Ref] of the values a resolved repository function hands back to the call `c` made in r.fi (every `return` and
+    every `yield`, parameters bound to the arguments of the call), or None when the callee is not repository code"""
+    if prog is None or not hasattr(r.fi, 'module'):
+        return None
+    try:
+        callee = resolve_call(prog, r.fi, c)
+    except Exception:
+        callee = None
+    if callee is None or callee.node is r.fi.node or not isinstance(callee.node, (ast.FunctionDef, ast.AsyncFunctionDef)):
+        return None
+    env = _bind_params(callee, c, r) or {}
+    out = []
+    for x in walk_no_nested(callee.node):
+        if isinstance(x, (ast.Return, ast.Yield, ast.YieldFrom)) and x.value is not None:
+            out.append(Ref(x.value, callee, env))
+    return out
+
+
+def variable_reads(r: Ref, seen: set | None = None, prog=None) -> set[tuple[str, bool]]:
     """{(key, read from an index group?)} of the netCDF variables the value of r is built from, through the
-    locals it mentions (every binding and every accumulation of each) and the parameters bound in r.env."""
+    locals it mentions (every binding and every accumulation of each), the parameters bound in r.env and - when
+    `prog` is given - the results of the resolved repository functions it calls."""
     seen = set() if seen is None else seen
     out = set()
     fi = r.fi
@@ -443,18 +527,22 @@ def variable_reads(r: Ref, seen: set | None = None) -> set[tuple[str, bool]]:
             vo = _variable_object(fi, x)
             if vo is not None:
                 out.add((vo[0], _is_index_group(fi, vo[1])))
+        if isinstance(x, ast.Call) and prog is not None and ('call', id(x)) not in seen:
+            seen.add(('call', id(x)))
+            for res in _callee_results(prog, r, x) or ():
+                out |= variable_reads(res, seen, prog)
         if isinstance(x, ast.Name) and isinstance(x.ctx, ast.Load) and (id(fi.node), x.id) not in seen:
             seen.add((id(fi.node), x.id))
             if x.id in r.env and not local_defs(fi.node, x.id):
-                out |= variable_reads(r.env[x.id], seen)
+                out |= variable_reads(r.env[x.id], seen, prog)
                 continue
             for d in local_defs(fi.node, x.id):
                 src = d.iter if isinstance(d, (ast.For, ast.AsyncFor)) else getattr(d, 'value', None)
                 if src is not None:
-                    out |= variable_reads(r.sub(src), seen)
+                    out |= variable_reads(r.sub(src), seen, prog)
             for c in _mutations(fi.node, x.id):
                 for a_ in list(c.args) + [k.value for k in c.keywords]:
-                    out |= variable_reads(r.sub(a_), seen)
+                    out |= variable_reads(r.sub(a_), seen, prog)
     return out
 
 
@@ -544,9 +632,10 @@ def arg_or_kw_(c: ast.Call, pos, name: str):
     return kwarg(c, name)
 
 
-def narrowing_steps(r: Ref, seen: set | None = None) -> list[tuple[ast.AST, str]]:
+def narrowing_steps(r: Ref, seen: set | None = None, prog=None) -> list[tuple[ast.AST, str]]:
     """the constructs on the way of the value of r (through the locals it mentions: every binding and every accumulation
-    of each; parameters bound in r.env) that do not hold 64-bit integers exactly"""
+    of each; parameters bound in r.env; with `prog`, the results of the resolved repository functions it calls) that do
+    not hold 64-bit integers exactly"""
     seen = set() if seen is None else seen
     out = []
     fi = r.fi
@@ -564,18 +653,22 @@ def narrowing_steps(r: Ref, seen: set | None = None) -> list[tuple[ast.AST, str]
         why = narrowing_step(fi, x)
         if why is not None:
             out.append((x, why))
+        if isinstance(x, ast.Call) and prog is not None and ('call', id(x)) not in seen:
+            seen.add(('call', id(x)))
+            for res in _callee_results(prog, r, x) or ():
+                out += narrowing_steps(res, seen, prog)
         if isinstance(x, ast.Name) and isinstance(x.ctx, ast.Load) and (id(fi.node), x.id) not in seen:
             seen.add((id(fi.node), x.id))
             if x.id in r.env and not local_defs(fi.node, x.id):
-                out += narrowing_steps(r.env[x.id], seen)
+                out += narrowing_steps(r.env[x.id], seen, prog)
                 continue
             for d in local_defs(fi.node, x.id):
                 src = d.iter if isinstance(d, (ast.For, ast.AsyncFor)) else getattr(d, 'value', None)
                 if src is not None:
-                    out += narrowing_steps(r.sub(src), seen)
+                    out += narrowing_steps(r.sub(src), seen, prog)
             for c in _mutations(fi.node, x.id):
                 for a_ in list(c.args) + [k.value for k in c.keywords]:
-                    out += narrowing_steps(r.sub(a_), seen)
+                    out += narrowing_steps(r.sub(a_), seen, prog)
     return out
 
 
@@ -853,6 +946,58 @@ def _denotes_self_attr(fi, e: ast.expr, attr: str) -> bool:
     return isinstance(e, ast.Attribute) and e.attr == attr and isinstance(e.value, ast.Name) and e.value.id == 'self'
 
 
+def reindex_table_through_helpers(prog, m, max_parts: int = 3, max_size: int = 3):
+    """`sa.rules.c09.reindex_table` once more, this time with the private helpers of the module that `_reindex` hands
+    its store (or anything read from it) interpreted as well: a `_reindex` whose steps - reading the identifiers off
+    the files, pairing, sorting, writing the two variables - live in methods / module functions of their own is the same
+    computation.  Same model stores, same requirement on what ends up in the two index variables.
+    -> (verdict, text, line); None = undecided"""
+    import itertools
+    from .c09 import AV, ID_DT, TruthTable, TTUndecided, _Raised, _check_index_writes, _model_parts, _repr_line
+    fn = m.func('TrajectoryStore._reindex')
+    line0 = fn.node.lineno
+    n_runs = 0
+    for wide, n in [(w, k) for w in (False, True) for k in range(1, max_parts + 1)]:
+        for sizes in itertools.product(range(0, max_size + 1), repeat=n):
+            if sum(sizes) > 9 or sum(sizes) == 0:
+                continue
+            if wide and n == max_parts and len(set(sizes)) > 1 and sorted(sizes) != list(range(n)):
+                continue
+            _, where = _model_parts(sizes, wide)
+            ids = sorted(where, key=lambda f: where[f])
+            groups, g = [], 0
+            for sz in sizes:
+                arr = AV('a', [AV('c', x, True) for x in ids[g:g + sz]], True, None, ID_DT)
+                groups.append(AV('o', ('model', {'variables': AV('d', {'flight_id': arr}, True)}, {'variables'})))
+                g += sz
+            files = AV('o', ('model', {'groups': AV('o', ('anykey', AV('l', groups)))}, {'groups'}))
+            # (the store counts as carrying identifier information, which is what makes the interpreter follow it into
+            # the helpers it is handed to)
+            store = AV('o', ('model', {'indexable': AV('c', True), 'index_stale': AV('c', True), 'nc_linked': AV('c', True),
+                                      '_write_enabled': AV('c', True), '_nc': AV('o', ('anykey', files)),
+                                      'index_group': AV('o', 'index group of the store')},
+                             {'indexable', 'index_stale', 'nc_linked', '_nc', 'index_group'}), True)
+            tt = TruthTable(prog, fn, (), '<none>', None)
+            tt.enter_helpers = True
+            try:
+                res = tt.run(None, keep_flags=True, bindings={fn.params[0]: store})
+            except TTUndecided as ex:
+                return None, f'files of sizes {sizes}: {ex}', line0
+            except (_Raised, RecursionError):
+                return None, f'files of sizes {sizes}: an exception escaped the interpretation', line0
+            acc = [r for r in res if r[0] == 'accepted']
+            if not acc or len(acc) != len(res):
+                return None, f'files of sizes {sizes}: _reindex does not complete on every path', line0
+            n_runs += 1
+            for r in acc:
+                v, text = _check_index_writes(r[5], where, f'for a store whose files hold {sizes} trajectories')
+                if v is not True:
+                    return v, text, _repr_line(r[5]) or line0
+    return True, (f'for every store of up to {max_parts} files with 0..{max_size} trajectories each ({n_runs} runs, helpers of the '
+                  f'module interpreted with it; small identifiers and identifiers above 2**53) the stored index maps every '
+                  f'identifier, unchanged and in ascending order, to the position of its trajectory'), line0
+
+
 def rule_sorted_writers(ctx, m):
     """R2, writer side.  What is stored into the two index variables must be the two columns of ONE ascending sort
     of the (identifier, position) pairs keyed on the identifier — the column the reader bisects on — whether the
@@ -870,6 +1015,18 @@ def rule_sorted_writers(ctx, m):
             if type(ex).__name__ == 'AnalysisError':
                 raise
             verdict, text = None, f'internal: {type(ex).__name__}: {ex}'
+        if verdict is None and qn.endswith('_reindex'):
+            # not decided with the helpers of the module taken as opaque: once more with those helpers interpreted
+            try:
+                v2, t2, l2 = reindex_table_through_helpers(prog, m)
+            except Exception as ex:
+                if type(ex).__name__ == 'AnalysisError':
+                    raise
+                v2, t2, l2 = None, f'internal: {type(ex).__name__}: {ex}', None
+            if v2 is not None:
+                verdict, text, line = v2, t2, l2
+            else:
+                text = f'{text}; with helpers: {t2}'
         if verdict is not None:
             ctx.ob('C08-R2', fi, 'index variables = identifiers ascending, each next to the position of its trajectory', verdict,
                    text, line=line)
@@ -882,7 +1039,7 @@ def rule_sorted_writers(ctx, m):
                           + str({k: len(v) for k, v in sorted(W.items())}))
         (s_id, v_id), (s_ix, v_ix) = W['flight_id'][0], W['trajectory_index'][0]
         # whatever the form of the sort: a construct on the way of the stored identifiers that does not hold 64-bit integers
-        narrowed = narrowing_steps(v_id)
+        narrowed = narrowing_steps(v_id, prog=prog)
         for x, why in narrowed[:1]:
             ctx.ob('C08-R2', fi, f'identifiers stored unchanged: {norm(x)[:60]}', False,
                    f'on their way into the flight_id index variable the identifiers pass through `{norm(x)[:60]}` ({why}), which does '
@@ -949,8 +1106,8 @@ def rule_sorted_writers(ctx, m):
                 pm2 = permuted(r_ix)
                 pos_col = ('value', pm2[0]) if pm2 is not None and same_order(pm2[1]) else None
             what_pos = r_ix.text()[:50]
-        keys = {k_ for k_, _ in variable_reads(id_col[1])} if id_col[0] == 'value' else set()
-        steps = narrowing_steps(id_col[1]) if id_col[0] == 'value' and not narrowed else []
+        keys = {k_ for k_, _ in variable_reads(id_col[1], prog=prog)} if id_col[0] == 'value' else set()
+        steps = narrowing_steps(id_col[1], prog=prog) if id_col[0] == 'value' and not narrowed else []
         for x, why in steps[:1]:
             ctx.ob('C08-R2', fi, f'identifiers stored unchanged: {norm(x)[:60]}', False,
                    f'on their way into the flight_id index variable the identifiers pass through `{norm(x)[:60]}` ({why}), which does '
@@ -966,7 +1123,7 @@ def rule_sorted_writers(ctx, m):
         elif pos_col[0] == 'position':
             ok = True
         elif pos_col[0] == 'value':
-            ok = {k_ for k_, _ in variable_reads(pos_col[1])} == {'trajectory_index'}
+            ok = {k_ for k_, _ in variable_reads(pos_col[1], prog=prog)} == {'trajectory_index'}
         else:
             ok = False
         ctx.ob('C08-R2', fi, f'trajectory_index table = {what_pos} = {_describe(pos_col) if pos_col else "?"}'[:110], ok,
@@ -1042,13 +1199,128 @@ IN_MEMORY_FACTS = {('self.nc_linked', False), ('len(self._nc_files) != 0', False
                    ('len(self._nc_files) == 0', True), ('self._nc_files', False), ('len(self._nc_files)', False)}
 
 
-def path_facts(fn: ast.AST):
+def _none_const(e) -> bool:
+    return isinstance(e, ast.Constant) and e.value is None
+
+
+def _holds(op: str, a, b):
+    """truth of `a <op> b` for two python constants, None when it cannot be said"""
+    try:
+        if op == 'Is':
+            return (a is b) if (a is None or b is None or isinstance(a, bool) or isinstance(b, bool)) else None
+        if op == 'IsNot':
+            return (a is not b) if (a is None or b is None or isinstance(a, bool) or isinstance(b, bool)) else None
+        return {'Eq': lambda: a == b, 'NotEq': lambda: a != b, 'Lt': lambda: a < b, 'LtE': lambda: a <= b,
+                'Gt': lambda: a > b, 'GtE': lambda: a >= b}[op]()
+    except (TypeError, KeyError):
+        return None
+
+
+_FLIP = {'Lt': 'Gt', 'LtE': 'GtE', 'Gt': 'Lt', 'GtE': 'LtE', 'Eq': 'Eq', 'NotEq': 'NotEq', 'Is': 'Is', 'IsNot': 'IsNot'}
+
+
+def _test_on_name(e: ast.expr):
+    """(name, op, constant) when e tests one local against a constant (`x is None`, `x < 0`, `0 <= x`), (name, 'Truth',
+    None) when e is the bare local; else None"""
+    if isinstance(e, ast.Name):
+        return e.id, 'Truth', None
+    if isinstance(e, ast.Compare) and len(e.ops) == 1:
+        l, r, op = e.left, e.comparators[0], type(e.ops[0]).__name__
+        if isinstance(r, ast.UnaryOp) and isinstance(r.op, ast.USub) and isinstance(r.operand, ast.Constant) \
+                and isinstance(r.operand.value, (int, float)):
+            r = ast.Constant(value=-r.operand.value)
+        if isinstance(l, ast.UnaryOp) and isinstance(l.op, ast.USub) and isinstance(l.operand, ast.Constant) \
+                and isinstance(l.operand.value, (int, float)):
+            l = ast.Constant(value=-l.operand.value)
+        if isinstance(l, ast.Name) and isinstance(r, ast.Constant) and op in _FLIP:
+            return l.id, op, r.value
+        if isinstance(r, ast.Name) and isinstance(l, ast.Constant) and op in _FLIP:
+            return r.id, _FLIP[op], l.value
+    return None
+
+
+def _nonneg_satisfies(tests) -> bool | None:
+    """is there a non-negative integer for which every (op, constant, truth) of `tests` comes out as stated?
+    None when a test is outside what is evaluated here"""
+    cands = {0, 1, 2}
+    for op, c, _ in tests:
+        if isinstance(c, (int, float)) and not isinstance(c, bool):
+            cands |= {int(c) + d for d in (-1, 0, 1)}
+    for v in sorted(x for x in cands if x >= 0):
+        ok = True
+        for op, c, p in tests:
+            r = bool(v) if op == 'Truth' else _holds(op, v, c)
+            if r is None:
+                return None
+            if r != p:
+                ok = False
+                break
+        if ok:
+            return True
+    return False
+
+
+def _canon_none(e: ast.expr):
+    """(e', flipped): one spelling for the tests against None - `X is None`; e is e' negated when flipped"""
+    if isinstance(e, ast.Compare) and len(e.ops) == 1 and isinstance(e.ops[0], (ast.Is, ast.IsNot, ast.NotEq, ast.Eq)) \
+            and (_none_const(e.comparators[0]) or _none_const(e.left)):
+        if isinstance(e.ops[0], ast.Is) and _none_const(e.comparators[0]):
+            return e, False
+        other = e.left if _none_const(e.comparators[0]) else e.comparators[0]
+        canon = ast.copy_location(ast.Compare(left=other, ops=[ast.Is()], comparators=[ast.Constant(value=None)]), e)
+        canon._parent = getattr(e, '_parent', None)
+        return canon, isinstance(e.ops[0], (ast.IsNot, ast.NotEq))
+    return e, False
+
+
+def truth_under(test: ast.expr, facts) -> bool | None:
+    """truth value of a test at a point where the (text, truth) facts hold, None when they do not say"""
+    if isinstance(test, ast.UnaryOp) and isinstance(test.op, ast.Not):
+        r = truth_under(test.operand, facts)
+        return None if r is None else not r
+    if isinstance(test, ast.BoolOp):
+        vals = [truth_under(v, facts) for v in test.values]
+        short = isinstance(test.op, ast.Or)
+        if any(v is short for v in vals):
+            return short
+        return (not short) if all(v is (not short) for v in vals) else None
+    if isinstance(test, ast.Constant):
+        return bool(test.value)
+    e, fl = _canon_none(test)
+    if isinstance(e, ast.Compare) and len(e.ops) == 1 and isinstance(e.left, ast.Constant) \
+            and isinstance(e.comparators[0], ast.Constant):
+        r = _holds(type(e.ops[0]).__name__, e.left.value, e.comparators[0].value)
+        return None if r is None else (r != fl)
+    t = norm(e)
+    for v in (True, False):
+        if (t, v) in facts:
+            return v != fl
+    return None
+
+
+def value_arms(v: ast.expr, cond=()):
+    """[(leaf value, [(test, truth)] that selects it)] of a value with conditional expressions in it"""
+    if isinstance(v, ast.IfExp):
+        return value_arms(v.body, tuple(cond) + ((v.test, True),)) + value_arms(v.orelse, tuple(cond) + ((v.test, False),))
+    return [(v, list(cond))]
+
+
+def path_facts(fn: ast.AST, domain=None):
     """Forward dataflow of branch conditions: for each CFG node the set of (expr text, truth value) facts that hold
     on every normal path reaching it (`if`/`while` outcomes and `assert`s; a fact dies when a name or self attribute
     it mentions is stored to).  Returns (cfg, {node id: facts}, {text: expr}, facts_of(test, truth) -> facts,
-    {node id: {facts of one feasible path}} or None when there are too many paths)."""
+    {node id: {facts of one feasible path}} or None when there are too many paths, {text of a definition fact: the
+    defining expression}).
+
+    The per-path sets also carry, for every local, *which* of its assignments the path went through (`@def <n> x := E`,
+    alive until x or a name of E is stored to; a conditional expression forks the path into its arms with the outcome of
+    its test), so a local bound on several branches can be read per path.  `domain(E)` may say 'nonneg' (E is a
+    non-negative integer: a position, a length) or 'notnone' about a defining expression; together with constants
+    (`x = None`, `x = -1`, `x = False`) that decides the tests a path takes on such a local, and paths that contradict
+    it are not feasible."""
     g = CFG(fn)
     exprs: dict[str, ast.expr] = {}
+    dexprs: dict[str, ast.expr] = {}
 
     def facts_of(test, pol, depth=0):
         out = set()
@@ -1059,6 +1331,8 @@ def path_facts(fn: ast.AST):
                 if v is not None and all(call_name(c) in ('len', 'int', 'bool') for c in calls_in(v)):
                     out |= facts_of(v, p, depth + 1)
                     continue
+            e, fl = _canon_none(e)
+            p = p != fl
             t = norm(e)
             exprs[t] = e
             out.add((t, p))
@@ -1099,26 +1373,111 @@ def path_facts(fn: ast.AST):
             return st
         return frozenset(f for f in st if not any(re.search(r'(?<![\w.])' + re.escape(k) + r'(?![\w])', f[0]) for k in killed))
 
-    def gen(s_):
+    def gen_value(x, v):
+        """facts about the local x after `x = v`"""
         out = set()
+        while isinstance(v, ast.Call) and call_name(v) in _TRANSPARENT and len(v.args) == 1 and not v.keywords:
+            v = v.args[0]
+        if isinstance(v, ast.Constant) and v.value is None:
+            t = f'{x} is None'
+            exprs.setdefault(t, ast.parse(t, mode='eval').body)
+            out.add((t, True))
+        elif isinstance(v, ast.Constant) and isinstance(v.value, bool):
+            exprs.setdefault(x, ast.Name(id=x, ctx=ast.Load()))
+            out.add((x, v.value))
+        elif isinstance(v, ast.Call):
+            out.add((f'@is {id(v)} {x}', True))
+            t = f'{x} is None'
+            if call_name(v).split('.')[-1] in ('bisect_left', 'bisect_right', 'bisect', 'searchsorted', 'len'):
+                exprs.setdefault(t, ast.parse(t, mode='eval').body)
+                out.add((t, False))
+        d = f'@def {id(v)} {x} := {norm(v)}'
+        dexprs[d] = v
+        out.add((d, True))
+        return out
+
+    def arms(v):
+        """[(leaf value, facts of the tests that select it)] of a value with conditional expressions in it"""
+        return [(leaf, frozenset(f for t_, p_ in cond for f in facts_of(t_, p_))) for leaf, cond in value_arms(v)]
+
+    def atom_cases(e, p):
+        """the ways the atomic test e can come out as p: [facts], one entry per arm when e compares a conditional
+        expression (`(None if miss else T[pos]) is None`: a temporary that was substituted into its test)"""
+        if isinstance(e, ast.Compare) and len(e.ops) == 1:
+            sides = [e.left, e.comparators[0]]
+            k = next((i for i, x in enumerate(sides) if isinstance(x, ast.IfExp)), None)
+            if k is not None and not isinstance(sides[1 - k], ast.IfExp):
+                out = []
+                for leaf, cond in arms(sides[k]):
+                    pair = [leaf, sides[1 - k]] if k == 0 else [sides[1 - k], leaf]
+                    e2 = ast.copy_location(ast.Compare(left=pair[0], ops=e.ops, comparators=[pair[1]]), e)
+                    e2._parent = getattr(e, '_parent', None)
+                    r = truth_under(e2, ())
+                    if r is None and _none_const(sides[1 - k]) and domain is not None and domain(leaf) in ('nonneg', 'notnone'):
+                        r = isinstance(e.ops[0], (ast.IsNot, ast.NotEq))
+                    if r is None:
+                        out.append(set(cond) | facts_of(e2, p))
+                    elif r == p:
+                        out.append(set(cond))
+                return out
+        c, fl = _canon_none(e)
+        t = norm(c)
+        exprs[t] = c
+        return [{(t, p != fl)}]
+
+    def test_cases(test, pol):
+        """[facts] - the ways a branch test comes out as pol"""
+        cases = [set()]
+        for e, p in conjuncts(test, pol):
+            if isinstance(e, ast.Name):
+                alts = [facts_of(e, p)]
+            else:
+                alts = atom_cases(e, p)
+            cases = [c | a for c in cases for a in alts]
+            if len(cases) > 16:
+                return [facts_of(test, pol)]
+        return cases
+
+    def gen(s_):
+        """the ways through an assignment to one local: [facts established]"""
+        x = v = None
         if isinstance(s_, ast.Assign) and len(s_.targets) == 1 and isinstance(s_.targets[0], ast.Name):
             x, v = s_.targets[0].id, s_.value
-            while isinstance(v, ast.Call) and call_name(v) in _TRANSPARENT and len(v.args) == 1 and not v.keywords:
-                v = v.args[0]
-            if isinstance(v, ast.Constant) and v.value is None:
-                t = f'{x} is None'
-                exprs.setdefault(t, ast.parse(t, mode='eval').body)
-                out.add((t, True))
-            elif isinstance(v, ast.Constant) and isinstance(v.value, bool):
-                exprs.setdefault(x, ast.Name(id=x, ctx=ast.Load()))
-                out.add((x, v.value))
-            elif isinstance(v, ast.Call):
-                out.add((f'@is {id(v)} {x}', True))
-                t = f'{x} is None'
-                if call_name(v).split('.')[-1] in ('bisect_left', 'bisect_right', 'bisect', 'searchsorted', 'len'):
-                    exprs.setdefault(t, ast.parse(t, mode='eval').body)
-                    out.add((t, False))
-        return out
+        elif isinstance(s_, ast.AnnAssign) and isinstance(s_.target, ast.Name) and s_.value is not None:
+            x, v = s_.target.id, s_.value
+        if x is None:
+            return [set()]
+        return [set(kill(frozenset(cond), {x})) | gen_value(x, leaf) for leaf, cond in arms(v)]
+
+    def def_on_path(x, st):
+        ds = [t for t, p_ in st if p_ and t.startswith('@def ') and t.split(' ', 3)[2] == x]
+        return dexprs.get(ds[0]) if len(ds) == 1 else None
+
+    def decided(e, st):
+        """truth value of the test e on a path with the facts st when the local it tests has a known constant or a known
+        domain on that path, else None"""
+        tn = _test_on_name(e)
+        if tn is None:
+            return None
+        x, op, c = tn
+        d = def_on_path(x, st)
+        if d is None:
+            return None
+        if isinstance(d, ast.UnaryOp) and isinstance(d.op, ast.USub) and isinstance(d.operand, ast.Constant) \
+                and isinstance(d.operand.value, (int, float)):
+            d = ast.Constant(value=-d.operand.value)
+        if isinstance(d, ast.Constant):
+            return bool(d.value) if op == 'Truth' else _holds(op, d.value, c)
+        dom_ = domain(d) if domain is not None else None
+        if dom_ in ('nonneg', 'notnone') and c is None and op in ('Is', 'IsNot', 'Eq', 'NotEq'):
+            return op in ('IsNot', 'NotEq')
+        if dom_ == 'nonneg' and op != 'Truth' and isinstance(c, (int, float)) and not isinstance(c, bool):
+            yes, no = _nonneg_satisfies([(op, c, True)]), _nonneg_satisfies([(op, c, False)])
+            if yes is False:
+                return False
+            if no is False:
+                return True
+        return None
 
     paths: dict[int, set] | None = {}
     budget = [60000]
@@ -1131,19 +1490,30 @@ def path_facts(fn: ast.AST):
         if node.stmt is not None and node.kind in ('iter', 'test') and id(node.stmt) in loop_kills:
             st = kill(st, loop_kills[id(node.stmt)])
         paths.setdefault(nid, set()).add(st)
-        out_st = st
+        out_sts = [st]
         if node.kind == 'stmt' and node.stmt is not None:
-            out_st = transfer(node, st) | frozenset(gen(node.stmt))
-        for b_, lab in g.succ[nid]:
-            if lab == 'e' or b_ in seen:
-                continue
-            s3 = out_st
-            if lab in ('t', 'f') and node.kind == 'test' and isinstance(node.stmt, (ast.If, ast.While)):
-                new = facts_of(node.stmt.test, lab == 't')
-                if any((t, not p_) in s3 for t, p_ in new):
+            base = transfer(node, st)
+            out_sts = []
+            for fs_ in gen(node.stmt):
+                if any((t, not p_) in base for t, p_ in fs_) \
+                        or any(truth_under(exprs[t], base) is (not p_) or decided(exprs[t], base) is (not p_)
+                               for t, p_ in fs_ if t in exprs):
+                    continue                      # (an arm of a conditional expression this path cannot take)
+                out_sts.append(base | frozenset(fs_))
+        for out_st in out_sts:
+            for b_, lab in g.succ[nid]:
+                if lab == 'e' or b_ in seen:
                     continue
-                s3 = s3 | frozenset(new)
-            walk(b_, s3, seen | {b_})
+                if lab in ('t', 'f') and node.kind == 'test' and isinstance(node.stmt, (ast.If, ast.While)):
+                    for new in test_cases(node.stmt.test, lab == 't'):
+                        if any((t, not p_) in out_st or (t in exprs and truth_under(exprs[t], out_st) is (not p_))
+                               for t, p_ in new):
+                            continue
+                        if any(t in exprs and decided(exprs[t], out_st) is (not p_) for t, p_ in new):
+                            continue
+                        walk(b_, out_st | frozenset(new), seen | {b_})
+                else:
+                    walk(b_, out_st, seen | {b_})
 
     import sys
     old = sys.getrecursionlimit()
@@ -1156,7 +1526,12 @@ def path_facts(fn: ast.AST):
         sys.setrecursionlimit(old)
     if budget[0] < 0:
         paths = None
-    return g, ins, exprs, facts_of, paths
+    def consistent(st, new) -> bool:
+        """can the facts `new` hold on a path that carries st?"""
+        return not any((t, not p_) in st or (t in exprs and (truth_under(exprs[t], st) is (not p_)
+                                                             or decided(exprs[t], st) is (not p_))) for t, p_ in new)
+    facts_of.consistent = consistent
+    return g, ins, exprs, facts_of, paths, dexprs
 
 
 def _alternatives(e: ast.expr | None):
@@ -1250,7 +1625,36 @@ def rule_reader(ctx, m):
     cls = m.cls('TrajectoryStore')
     gf = m.func('TrajectoryStore.get_flight')
     fid = gf.params[1]
-    g, ins, fexprs, facts_of, paths = path_facts(gf.node)
+
+    def value_domain(d):
+        """what is known about a defining expression: an element of one of the two index variables is never None, an
+        element of trajectory_index - like the result of a binary search or a length - is a position (>= 0)"""
+        if isinstance(d, ast.Call) and (_search_call(d) is not None or call_name(d) == 'len'):
+            return 'nonneg'
+        if isinstance(d, ast.Subscript) and not isinstance(d.slice, (ast.Slice, ast.Tuple)):
+            src = index_source(prog, cls, Ref(d.value, gf))
+            if src is not None:
+                return 'nonneg' if src[0] == 'trajectory_index' else 'notnone'
+        return None
+
+    g, ins, fexprs, facts_of, paths, dexprs = path_facts(gf.node, value_domain)
+
+    def on_path(e, fs, depth=0) -> Ref:
+        """the value of e on a path with the facts fs: a local bound on several branches is followed through the
+        assignment this path went through"""
+        if isinstance(e, ast.Name) and depth < 8:
+            ds = [t for t, p_ in fs if p_ and t.startswith('@def ') and t.split(' ', 3)[2] == e.id]
+            if len(ds) == 1 and ds[0] in dexprs:
+                return on_path(dexprs[ds[0]], fs, depth + 1)
+        if isinstance(e, ast.IfExp) and isinstance(stmt_of(e), ast.Return) and depth < 8:
+            # (evaluated at the return, where the facts hold: the arms this path cannot take drop out)
+            live = [leaf for leaf, cond in value_arms(e) if not any(truth_under(t_, fs) is (not p_) for t_, p_ in cond)]
+            if len(live) == 1:
+                return on_path(live[0], fs, depth + 1)
+        r = resolve_value(prog, Ref(e, gf))
+        if r.e is not e and isinstance(r.e, (ast.Name, ast.IfExp)) and r.fi is gf and not r.comp and depth < 8:
+            return on_path(r.e, fs, depth + 1)
+        return r
 
     def sets_at(nid):
         """fact sets, one per feasible path reaching the node (the dataflow solution when paths were not enumerated)"""
@@ -1290,7 +1694,7 @@ def rule_reader(ctx, m):
            'the binary search does not run over the flight_id variable with the requested identifier', line=b.lineno)
 
     def is_pos(e, facts=()):
-        x = resolve_value(prog, Ref(e, gf))
+        x = on_path(e, facts)
         if any(x.e is c for c in same) and not x.comp:
             return True
         # a local assigned more than once: on this path it holds the search result
@@ -1339,8 +1743,52 @@ def rule_reader(ctx, m):
                         bounds = True
         return eq, bounds
 
+    ret_nodes = [n for n in g.nodes if n.kind == 'stmt' and isinstance(n.stmt, ast.Return) and n.id in ins]
+
+    def _is_none_on(v, fs) -> bool:
+        r = on_path(v, fs)
+        return _none_const(r.e) and not r.comp
+
+    def _answering_paths():
+        """fact sets of the confirmed-hit paths that end in a value-returning `return`"""
+        out = []
+        for rn in ret_nodes:
+            for x in _alternatives(rn.stmt.value):
+                if x is not None and not _none_const(x):
+                    out += [fs for fs in sets_at(rn.id) if not (fs & IN_MEMORY_FACTS) and confirmed(fs) == (True, True)
+                            and not _is_none_on(x, fs)]
+        return out
+
+    def _lost_hit(per_path):
+        """text of the test that sends a confirmed hit to `return None`, or None"""
+        if paths is None:
+            return None
+        good = None
+        for fs in per_path:
+            if (fs & IN_MEMORY_FACTS) or confirmed(fs) != (True, True):
+                continue
+            good = _answering_paths() if good is None else good
+            for gs_ in good:
+                extra = [(t, p_) for t, p_ in fs - gs_ if not t.startswith('@')]
+                if not extra:
+                    continue
+                by_name: dict[str, list] = {}
+                for t, p_ in extra:
+                    tn = _test_on_name(fexprs[t]) if t in fexprs else None
+                    if tn is None:
+                        by_name = None
+                        break
+                    by_name.setdefault(tn[0], []).append((tn[1], tn[2], p_))
+                if not by_name:
+                    continue
+                if all(value_domain(on_path(ast.Name(id=x, ctx=ast.Load()), fs).e) == 'nonneg'
+                       and not on_path(ast.Name(id=x, ctx=ast.Load()), fs).comp
+                       and _nonneg_satisfies(tests) is True for x, tests in by_name.items()):
+                    return ' and '.join(('' if p_ else 'not ') + f'`{t}`' for t, p_ in sorted(extra))
+        return None
+
     n_val = n_none = 0
-    for rnode in [n for n in g.nodes if n.kind == 'stmt' and isinstance(n.stmt, ast.Return) and n.id in ins]:
+    for rnode in ret_nodes:
         ret = rnode.stmt
         if not sets_at(rnode.id):
             continue                                  # no feasible path reaches this return
@@ -1349,11 +1797,37 @@ def rule_reader(ctx, m):
             for t, pol, _ in (guards_of(v, stop=ret) if v is not None else []):
                 local |= facts_of(t, pol)
             facts = meet_at(rnode.id) | local
-            per_path = [fs | local for fs in sets_at(rnode.id)]
-            in_memory = bool(facts & IN_MEMORY_FACTS)
+            # (the arm of a conditional `return A if T else B` is reached only on the paths its test agrees with)
+            per_path = [fs | local for fs in sets_at(rnode.id) if paths is None or facts_of.consistent(fs, local)]
+            if not per_path:
+                continue
             txt = f'return {norm(v) if v is not None else "None"}'
+            if v is not None and not _none_const(v) and paths is not None:
+                # the paths on which the returned local holds None (`result = None` on the miss branch) return None
+                none_paths = [fs for fs in per_path if _is_none_on(v, fs)]
+                if none_paths:
+                    per_path = [fs for fs in per_path if not _is_none_on(v, fs)]
+                    lost = _lost_hit(none_paths)
+                    if lost is not None:
+                        ctx.ob('C08-R2', gf, txt + ' (None on this path) although the identifier was found', False,
+                               f'on a path where the found slot holds the requested identifier, None is returned when {lost}: '
+                               'a trajectory that was added with that identifier is not found', line=ret.lineno)
+                    if not per_path:
+                        n_none += 1
+                        continue
+                    facts = set.intersection(*[set(fs) for fs in per_path])
+            in_memory = bool(facts & IN_MEMORY_FACTS)
             if v is None or (isinstance(v, ast.Constant) and v.value is None):
                 n_none += 1
+                # a hit must be answered: on a path where the found slot was confirmed (bounds and equality hold), None
+                # is wrong.  Reported when the only thing that tells this path from an answering one is a test of the
+                # position read from trajectory_index that some position satisfies (`if not traj_idx: return None`
+                # loses position 0); tests of anything else are not judged here.
+                lost = _lost_hit(per_path)
+                if lost is not None:
+                    ctx.ob('C08-R2', gf, txt + ' although the identifier was found', False,
+                           f'on a path where the found slot holds the requested identifier, None is returned when {lost}: '
+                           'a trajectory that was added with that identifier is not found', line=ret.lineno)
                 continue
             n_val += 1
             # ---- answer from the cache of an in-memory store --------------------------------------
@@ -1414,22 +1888,26 @@ def rule_reader(ctx, m):
                        line=ret.lineno)
                 continue
             # ---- answer through the index ---------------------------------------------------------
-            rv = resolve_value(prog, Ref(v, gf))
-            e = rv.e
-            item = None
-            if not rv.comp and isinstance(e, ast.Subscript) and norm(e.value) == 'self':
-                item = e.slice
-            elif not rv.comp and isinstance(e, ast.Call) and call_name(e) == 'self.__getitem__' and len(e.args) == 1:
-                item = e.args[0]
-            if item is None:
-                ctx.undecided('C08-R2', gf, txt[:100], 'returned value is neither a look-up through the index nor a '
-                              'recognised search of the cache')
-            ri = resolve_value(prog, Ref(item, gf))
-            slot = ri.e.slice if isinstance(ri.e, ast.Subscript) and not ri.comp else None
-            t_src = src_of(ri.e.value) if slot is not None else None
-            okr = slot is not None and all(is_pos(slot, fs) for fs in per_path) and t_src is not None \
-                and t_src[0] == 'trajectory_index' \
-                and a_src is not None and t_src[1] == a_src[1]
+            # (path by path: a local that is bound on several branches - a position-or-None sentinel handed back by
+            # a search helper - holds, on each path, what the assignment that path went through gave it)
+            okr = True
+            for fs in per_path:
+                rv = on_path(v, fs)
+                e = rv.e
+                item = None
+                if not rv.comp and isinstance(e, ast.Subscript) and norm(e.value) == 'self':
+                    item = e.slice
+                elif not rv.comp and isinstance(e, ast.Call) and call_name(e) == 'self.__getitem__' and len(e.args) == 1:
+                    item = e.args[0]
+                if item is None:
+                    ctx.undecided('C08-R2', gf, txt[:100], 'returned value is neither a look-up through the index nor a '
+                                  'recognised search of the cache')
+                ri = on_path(item, fs)
+                slot = ri.e.slice if isinstance(ri.e, ast.Subscript) and not ri.comp else None
+                t_src = src_of(ri.e.value) if slot is not None else None
+                okr = okr and slot is not None and is_pos(slot, fs) and t_src is not None \
+                    and t_src[0] == 'trajectory_index' \
+                    and a_src is not None and t_src[1] == a_src[1]
             why_bad = 'the returned trajectory is not looked up through the parallel trajectory_index slot'
             if okr and side == 'right':
                 okr = False
@@ -1554,7 +2032,7 @@ def lookup_copies(prog, methods: dict, lookups=('get_flight',)):
 
 def freshness(prog, methods: dict):
     """For every copy of the index kept in an attribute: is it dropped or renewed wherever the index goes stale
-    (`self.index_stale = True`) or wherever the index variables are rewritten?  One of the two is necessary: a
+    (`self.index_stale = True`, or a computed value) or wherever the index variables are rewritten?  One of the two is necessary: a
     look-up reads the copy, and nothing else tells the copy that trajectories were added since it was made.
     -> [(attr, ok, covered group, fills, uncovered sites [(fi, stmt)], detail)]"""
     copies = lookup_copies(prog, methods)
@@ -1563,9 +2041,17 @@ def freshness(prog, methods: dict):
         if fi.node.name == '__init__':
             continue
         for t, st, how in stores_to(fi.node):
-            if _self_attr_of_target(t) == 'index_stale' and isinstance(t, ast.Attribute) and how == 'assign' \
-                    and isinstance(st.value, ast.Constant) and st.value.value is True:
-                stale_sites.append((fi, st))
+            if _self_attr_of_target(t) == 'index_stale' and isinstance(t, ast.Attribute) and how == 'assign':
+                # the flag is given a value that can be true: the constant, or something computed (`= has_flight_id`);
+                # not the constant False, not the value the flag had on entry put back by a failed addition
+                v_ = st.value
+                if isinstance(v_, ast.Constant):
+                    goes_stale = v_.value is True
+                else:
+                    d = single_def_value(fi.node, v_.id) if isinstance(v_, ast.Name) else None
+                    goes_stale = not (d is not None and norm(d) == 'self.index_stale')
+                if goes_stale:
+                    stale_sites.append((fi, st))
         for lst in _index_writers(prog, fi, self_only=True).values():
             rewrite_sites += [(fi, st) for st, _ in lst]
 
@@ -1751,7 +2237,7 @@ def table_knowledge(prog, methods: dict, writer: str = 'add'):
             att = _attached_existing_index(fi)
             if not att:
                 continue
-            g, ins, _, _, _ = path_facts(fi.node)
+            g, ins, _, _, _, _ = path_facts(fi.node)
             dom = g.dominators(edge_ok=_normal)
             pdom = g.postdominators([g.exit], edge_ok=_normal)
             w_nodes = set()
